@@ -142,6 +142,15 @@ def step (t : List String) : String :=
       if f.size ≠ 2 * n then "bad-op" else
       fmtFloat (nllCost Float.log n (reOfList f 0) (reOfList f n)) ++ " " ++ fmtRe n (nllGrad n (reOfList f 0) (reOfList f n))
     | _, _ => "bad-op"
+  | "dmbp" :: a :: b :: c :: d :: e :: g :: h :: rest =>     -- m n k skx sky M N | sx sy scale | ifn | y
+    match nats? [a, b, c, d, e, g, h], floats? rest with
+    | some [m, n, k, skx, sky, M, N], some f =>
+      if f.size ≠ 3 + m * n + M * N then "bad-op" else
+      let ifn : Mat Float := fun i j => f.getD (3 + i * n + j) 0.0
+      let y : Mat Float := fun i j => if i < M ∧ j < N then f.getD (3 + m * n + i * N + j) 0.0 else 0.0
+      let r := dmBackT Float.cos Float.sin twoPi m n k skx sky M N f[0]! f[1]! f[2]! ifn y
+      " ".intercalate ((List.range (k * k)).map fun t => fmtFloat (r.fn (t / k) (t % k)))
+    | _, _ => "bad-op"
   | _ => "bad-op"
 
 def main : IO Unit := mainLoop step
